@@ -7,6 +7,7 @@ use cfr::{Game, GameError, PlayerNum, SolveMethod};
 #[derive(Clone, Copy, PartialEq, Debug)]
 pub enum Plant {
     None,
+    Valid3, // valid: the shared chance infoset has three outcomes with weights (3,2,1) at both visits
     EmptyChance,
     Weight(u8),        // 0: zero, 1: negative, 2: +inf, 3: NaN
     ProbsDiffer(u8),   // 0: different weights, 1: same weights in another order
@@ -91,6 +92,8 @@ pub fn tree(plant: Plant, who: bool, late: bool) -> N {
         let single_act = if hit_here && plant == Plant::SingleDiffer { "other" } else { "only" };
         let chance = if hit_here && plant == Plant::EmptyChance {
             c(Some("cz"), vec![])
+        } else if plant == Plant::Valid3 {
+            c(Some("cz"), vec![(3.0, o_node(v)), (2.0, p(pn(who), "single", vec![(single_act, o_node(-v))])), (1.0, o_node(v + 2.0))])
         } else {
             c(Some("cz"), vec![(ws[0], o_node(v)), (ws[1], p(pn(who), "single", vec![(single_act, o_node(-v))]))])
         };
@@ -107,7 +110,7 @@ pub fn tree(plant: Plant, who: bool, late: bool) -> N {
 
 fn expected(plant: Plant) -> Option<&'static str> {
     Some(match plant {
-        Plant::None => return None,
+        Plant::None | Plant::Valid3 => return None,
         Plant::EmptyChance => "EmptyChance",
         Plant::Weight(_) => "NonPositiveChance",
         Plant::ProbsDiffer(_) => "ProbabilitiesNotEqual",
@@ -137,7 +140,7 @@ fn name(e: &GameError) -> &'static str {
 pub fn c11(group: &str) -> (usize, Vec<String>) {
     let mut plants = Vec::new();
     if group.is_empty() || group == "table" {
-        plants.extend([Plant::None, Plant::EmptyChance, Plant::EmptyPlayer, Plant::Duplicate, Plant::Recall, Plant::SingleDiffer]);
+        plants.extend([Plant::None, Plant::Valid3, Plant::EmptyChance, Plant::EmptyPlayer, Plant::Duplicate, Plant::Recall, Plant::SingleDiffer]);
         for k in 0..4 {
             plants.push(Plant::Weight(k));
         }
@@ -178,7 +181,7 @@ pub fn c11(group: &str) -> (usize, Vec<String>) {
                         }
                     }
                     (Ok(Err(e)), None) => bad.push(format!("a valid tree was rejected with {}: {what}", name(&e))),
-                    (Ok(Ok(_)), Some(k)) => bad.push(format!("a tree violating {k} was accepted: {what}")),
+                    (Ok(Ok(_)), Some(k)) => bad.push(format!("a tree violating {} was accepted: {what}", if k == "*" { "the finite-payoff rule" } else { k })),
                     (Ok(Err(e)), Some(k)) => {
                         if k != "*" && name(&e) != k {
                             bad.push(format!("a tree violating only {k} was rejected with {}: {what}", name(&e)));
